@@ -43,6 +43,21 @@ def is_axis0(v):
     return isinstance(v, Enum) and v.adt == 'ndarray::Axis' and isinstance(v.fields.get('0'), Num) and v.fields['0'].const() == 0
 
 
+class _PlaceItems:
+    """the one element of `slice::from_mut(&mut local)`, seen as a list"""
+    def __init__(self, place):
+        self.place = place
+
+    def __len__(self):
+        return 1
+
+    def __getitem__(self, i):
+        return self.place.get()
+
+    def __setitem__(self, i, v):
+        self.place.set(v)
+
+
 class EPModel(KModel):
     def __init__(self, scn):
         super().__init__(scn)
@@ -149,6 +164,11 @@ class EPModel(KModel):
             return a0
         if name.endswith('as_mut_slice') and isinstance(a0, Tup):
             return Obj('mutslice', of=a0)
+        if name == 'std::slice::from_mut' and isinstance(args[0], Ref):
+            # a one-element slice over a local: what is written through it lands in that local
+            root = Obj('localbuf')
+            root.items = _PlaceItems(args[0].place)
+            return Obj('mutslice', of=root)
         if name.endswith('>::from') or name == 'std::convert::From::from':
             v = deref_all(args[0])
             if isinstance(v, Obj) and v.kind == 'mutslice':
